@@ -733,6 +733,12 @@ CANARIES = {
         'return inputs[:compute_num_output(self.n, len(inputs), step) + 1]'),
     'C14.mutator_seed_ignored': _canary(
         _MU, 'Uniform', '_on_bound', 'if self.seed is None:', 'if True:'),
+    'C14.permutation_where_unseeded': _canary(
+        _RE, 'Permutation', '_on_bound', 'notify_parents=False', 'skip_notification=True'),
+    'C14.merge_fallback_ignores_inactive': _canary(
+        _RE, None, '_merge_multi_choice',
+        'return rand.choices(parent_decisions, weights=adjusted_weights, k=1)[0]',
+        'return rand.choices(parent_decisions, weights=weights, k=1)[0]'),
     'C12.swap_no_realign': _canary(
         _MU, 'Swap', 'mutate',
         'parent_node.children[i].use_spec(parent_node.spec.subchoice(i))', 'pass'),
